@@ -194,11 +194,13 @@ def p_oracle(prop, tier):
     if prop in ("C01", "C02"):
         extra += ["--shipped-corpus", SHIPPED]
     if tier == "quick":
-        jobs = parse_jobs(prop, tier, CFG5, ["default", "compact"], 4, 2, 12, extra + (["--midpoints", "4099", "--midpoints-budget", "0.45"] if prop == "C02" else []))
+        jobs = parse_jobs(prop, tier, CFG5, ["default", "compact"], 4, 2, 12, extra + (["--midpoints", "4099", "--midpoints-budget", "0.35", "--short-sweep", "2039", "--short-sweep-budget", "0.6"] if prop == "C02" else []))
         rc = 30000
     else:
-        jobs = parse_jobs(prop, tier, CFG8, CFG5, 8, 4, 75, extra + (["--midpoints", "257", "--midpoints-budget", "0.5"] if prop == "C02" else []))
+        jobs = parse_jobs(prop, tier, CFG8, CFG5, 8, 4, 75, extra + (["--midpoints", "257", "--midpoints-budget", "0.4", "--short-sweep", "127", "--short-sweep-budget", "0.6"] if prop == "C02" else []))
         if prop == "C02":
+            # bounded-exhaustive: every significand below 2^32 x every exponent in [-22, 22] in the default configuration
+            jobs.append(Job("eng_parse", "default", "rel", shards=16, budget=B(1500), args=["--tier", tier, "--short-sweep", "1", "--short-sweep-budget", "0.97", "--max-evals", "1"], name="eng_parse-default-rel-shortsweep", timeout=6000))
             # complete enumeration of all f32 rounding boundaries in the default configuration
             jobs.append(Job("eng_parse", "default", "rel", shards=16, budget=B(900), args=["--tier", tier, "--midpoints", "1", "--midpoints-budget", "0.97"], name="eng_parse-default-rel-allmidpoints", timeout=4000))
         rc = 400000
@@ -221,6 +223,11 @@ def p_oracle(prop, tier):
         full = [e for (jn, e) in ex if jn == "eng_parse-default-rel-allmidpoints"]
         cov["f32_all_midpoints_enumerated_in_default_configuration"] = bool(full) and len(full) == 16 and all(e.get("f32_midpoint_range_completed") for e in full)
         cov["exhaustive_scope"] = "all 2^31 - 2^23 f32 rounding boundaries x (tie, just above, just below) in the default configuration, thorough only, when the flag above is true; everything else is sampled"
+        sw = [(jn, e) for (jn, i, e) in m.extras if "f32_short_sweep_stride" in e]
+        cov["f32_short_sweep_cases"] = m.counters.get("short_sweep.cases", 0)
+        cov["f32_short_sweep_strides"] = sorted(set(int(e["f32_short_sweep_stride"]) for (jn, e) in sw))
+        fullsw = [e for (jn, e) in sw if jn == "eng_parse-default-rel-shortsweep"]
+        cov["f32_every_significand_below_2^32_x_exponents_-22..22_in_default_configuration"] = bool(fullsw) and len(fullsw) == 16 and all(e.get("f32_short_sweep_range_completed") for e in fullsw)
 
     def exh(m, cov):
         return bool(cov.get("f32_all_midpoints_enumerated_in_default_configuration"))
